@@ -44,9 +44,19 @@ class Env:
         self.kinds = set()
         self.ops = []  # pool: dict(op, spec, params)
         self.cur_params = None
+        self.memo = {}
 
     def array(self, a):
+        key = codec.json_digest(a["arr"])
+        if key in self.memo:
+            v = self.memo[key]
+            self.stats["buggify.parameter_array_shared_between_operators"] += 1
+            self.kinds.add(a["arr"].get("kind", "c128"))
+            if self.cur_params is not None:
+                self.cur_params.append(v)
+            return v
         v = opgen.realise_array(a["arr"])
+        self.memo[key] = v
         self.ledger.own("param%d" % self.nparams, v)
         self.nparams += 1
         self.kinds.add(a["arr"].get("kind", "c128"))
@@ -302,6 +312,7 @@ class OpsWorld(World):
         nprox = 0
         applies = []  # (step index, op index)
         pool = []  # (spec or None, ishape or None, oshape or None) per pool operator
+        applies_by_op = {}
 
         def buf():
             return {"seed": rng.getrandbits(48), "kind": rng.choice(opgen.KINDS),
@@ -314,7 +325,7 @@ class OpsWorld(World):
                 if nops and rng.random() < 0.35:
                     # combine existing pool operators (shares cached children and operand lists)
                     j = rng.randrange(nops)
-                    kind = rng.choice(["H", "N", "neg", "conj", "scaleL", "HN", "NH", "addref", "addref", "subref",
+                    kind = rng.choice(["H", "N", "neg", "conj", "scaleL", "scaleR", "scaleR", "scaleR", "scaleR", "HN", "NH", "addref", "addref", "subref",
                                        "refadd", "composeref", "refcompose", "stackref"])
                     ref = {"k": "ref", "i": j}
                     jspec, jin, jout = pool[j]
@@ -344,15 +355,23 @@ class OpsWorld(World):
                         spec = {"k": rng.choice(["vstack", "hstack"]), "ops": [ref, other], "axis": None}
                         shp = (None, None)
                     if spec is None:
-                        kind = rng.choice(["H", "N", "neg", "conj", "scaleL", "HN", "NH"]) if kind not in ("H", "N", "neg", "conj", "scaleL", "HN", "NH") else kind
+                        kind = rng.choice(["H", "N", "neg", "conj", "scaleL", "scaleR", "HN", "NH"]) if kind not in ("H", "N", "neg", "conj", "scaleL", "scaleR", "HN", "NH") else kind
                         spec = {"H": {"k": "H", "op": ref}, "N": {"k": "N", "op": ref}, "neg": {"k": "neg", "op": ref},
                                 "conj": {"k": "conj", "op": ref},
                                 "scaleL": {"k": "scale", "a": [0.5, -2.0], "side": "l", "op": ref},
+                                "scaleR": {"k": "scale", "a": rng.choice([[3.0, 0.0], [0.5, 1.0], [-2.0, 0.0]]), "side": "r", "op": ref},
                                 "HN": {"k": "N", "op": {"k": "H", "op": ref}},
                                 "NH": {"k": "H", "op": {"k": "N", "op": ref}}}[kind]
                         shp = {"H": (jout, jin), "N": (jin, jin), "neg": (jin, jout), "conj": (jin, jout),
-                               "scaleL": (jin, jout), "HN": (jout, jout), "NH": (jin, jin)}[kind]
+                               "scaleL": (jin, jout), "scaleR": (jin, jout), "HN": (jout, jout), "NH": (jin, jin)}[kind]
                     pool.append((None, shp[0], shp[1]))
+                elif nops and rng.random() < 0.12 and any(pl[0] is not None for pl in pool):
+                    # a second operator object built from the very same arrays
+                    j2 = rng.choice([i_ for i_, pl in enumerate(pool) if pl[0] is not None])
+                    spec, si, so = copy.deepcopy(pool[j2][0]), pool[j2][1], pool[j2][2]
+                    if rng.random() < 0.5 and so is not None:
+                        spec, si, so = {"k": "H", "op": spec}, so, si
+                    pool.append((spec, si, so))
                 else:
                     spec, si, so = opgen.gen_tree(rng, rng.choice([0, 0, 1, 1, 2, 3]))
                     pool.append((spec, si, so))
@@ -368,7 +387,10 @@ class OpsWorld(World):
                 sched.append({"op": "fn", "fn": opgen.gen_fn(rng)})
                 continue
             j = rng.randrange(nops)
-            kind = rng.choice(["apply", "apply", "apply", "again", "equal", "out", "param", "take_H", "take_N", "lin", "lin"])
+            kind = rng.choice(["apply", "apply", "apply", "again", "equal", "out", "param", "take_H", "take_N", "lin", "lin", "inspect"])
+            if kind == "inspect":
+                sched.append({"op": "inspect", "i": j})
+                continue
             if kind == "take_H":
                 sched.append({"op": "take_H", "i": j})
                 pool.append((None, pool[j][2], pool[j][1]))
@@ -388,6 +410,7 @@ class OpsWorld(World):
                 elif kind == "param":
                     st["src"] = "param"
                 applies.append(len(sched))
+                applies_by_op.setdefault(j, []).append(len(sched))
                 sched.append(st)
         return {"world": self.name, "seed": seed, "schedule": sched, "faults": [], "knobs": {"focus": focus}}
 
@@ -502,6 +525,20 @@ class OpsWorld(World):
                     op = ent["op"]
                 env.ops.append({"op": op, "spec": {"k": "H" if kind == "take_H" else "N", "op": ent["spec"]},
                                 "params": ent["params"]})
+                check_ledger(step, top_site(ent["spec"]))
+            elif kind == "inspect":
+                # attribute reads and derived-operator construction between applications
+                acts.append("i")
+                ent = env.ops[s["i"] % len(env.ops)]
+                op = ent["op"]
+                try:
+                    repr(op)
+                    _ = (list(op.ishape), list(op.oshape), op.repr_str)
+                    hh = op.H.H
+                    nn = op.N
+                    _ = (hh.ishape, nn.oshape, op.H.N.ishape)
+                except Exception:
+                    stats["probes.build_rejected"] += 1
                 check_ledger(step, top_site(ent["spec"]))
             elif kind == "apply":
                 j = s["i"] % len(env.ops)
